@@ -26,11 +26,11 @@ type CReq struct {
 }
 
 type ClientCase struct {
-	Mode      string   `json:"mode"`
-	Pipelined bool     `json:"pipelined_on_one_clientconn"`
-	MaxConns  int      `json:"max_conns_per_host"`
-	Reqs      []CReq   `json:"reqs"`
-	Threads   int      `json:"threads"`
+	Mode      string `json:"mode"`
+	Pipelined bool   `json:"pipelined_on_one_clientconn"`
+	MaxConns  int    `json:"max_conns_per_host"`
+	Reqs      []CReq `json:"reqs"`
+	Threads   int    `json:"threads"`
 }
 
 func cbyte(id, i int) byte { return byte('k' + (id*17+i+(i>>11))%13) }
